@@ -668,10 +668,48 @@ pub fn run(out: &mut Out, thorough: bool, seed: u64, prop: &str) {
             out.case(case, imp);
         }
     }
+    if prop == "C07" {
+        appended_items(out);
+    }
     if prop == "C08" {
         generic_items(out);
     }
     out.samples = out.ops.iter().step_by(out.ops.len() / 12 + 1).map(|s| s.chars().take(300).collect()).collect();
+}
+
+/// `encode_u8/u16/u32_items` append to a buffer that may already hold other fields
+fn appended_items(out: &mut Out) {
+    use prio::codec::{decode_u16_items, decode_u32_items, decode_u8_items};
+    use std::io::Cursor;
+    // the encoders append to a buffer that may already hold other fields of an enclosing message: the length prefix
+    // counts the items only, whatever precedes them
+    {
+        use prio::codec::{encode_u16_items, encode_u32_items, encode_u8_items};
+        for prefix_len in [0usize, 1, 3, 200, 300] {
+            for n in [0usize, 1, 5, 40] {
+                let items: Vec<u16> = (0..n as u16).map(|i| i * 257 + 3).collect();
+                let prefix = vec![0xabu8; prefix_len];
+                macro_rules! rt {
+                    ($name:expr, $enc:ident, $dec:ident, $hdr:expr) => {{
+                        let mut buf = prefix.clone();
+                        let r = $enc(&mut buf, &(), &items);
+                        let ok = r.is_ok()
+                            && buf.len() == prefix_len + $hdr + 2 * n
+                            && buf[..prefix_len] == prefix[..]
+                            && {
+                                let mut c = Cursor::new(&buf[prefix_len..]);
+                                matches!($dec::<(), u16>(&(), &mut c), Ok(v) if v == items) && c.position() as usize == buf.len() - prefix_len
+                            };
+                        out.oracle(ok, || format!("{} of {} u16 items appended to a buffer of {} bytes", $name, n, prefix_len), || format!("wrong length prefix or content: {}", hex(&buf[prefix_len..(prefix_len + 8).min(buf.len())])));
+                        out.count("items.encode-appended");
+                    }};
+                }
+                rt!("encode_u8_items", encode_u8_items, decode_u8_items, 1);
+                rt!("encode_u16_items", encode_u16_items, decode_u16_items, 2);
+                rt!("encode_u32_items", encode_u32_items, decode_u32_items, 4);
+            }
+        }
+    }
 }
 
 /// the public generic helpers `decode_u8/u16/u32_items` with item types of width 0, 1, 2 and 8, under a watchdog
